@@ -176,19 +176,24 @@ fn main() -> miette::Result<()> {
 
             let out_file_name =
                 dest.unwrap_or(name.with_extension("lc3").file_name().unwrap().into());
-            let mut file = File::create(&out_file_name).unwrap();
+            // Emit the whole image before touching the destination, so that a failed
+            // compilation does not leave a partial file behind
+            let mut image: Vec<u8> = Vec::with_capacity((air.len() + 1) * 2);
 
             // Deal with .orig
             if let Some(orig) = air.orig() {
-                let _ = file.write(&orig.to_be_bytes());
+                image.extend(orig.to_be_bytes());
             } else {
-                let _ = file.write(&0x3000u16.to_be_bytes());
+                image.extend(0x3000u16.to_be_bytes());
             }
 
             // Write lines
             for stmt in &air {
-                let _ = file.write(&stmt.emit()?.to_be_bytes());
+                image.extend(stmt.emit()?.to_be_bytes());
             }
+
+            let mut file = File::create(&out_file_name).into_diagnostic()?;
+            file.write_all(&image).into_diagnostic()?;
 
             message(Green, "Finished", "emit binary");
             file_message(Green, "Saved", &out_file_name);
